@@ -8,6 +8,8 @@
 #define SPECTRA_SEARCH_SPACE_H
 
 #include <Eigen/Core>
+#include <Eigen/QR>
+#include <cmath>
 
 #include "RitzPairs.h"
 #include "Orthogonalization.h"
@@ -72,6 +74,8 @@ public:
     /// \param size Size of the restart
     void restart(const RitzPairs<Scalar>& ritz_pairs, Index size)
     {
+        // There cannot be more vectors than Ritz pairs
+        size = (std::min)(size, Index(ritz_pairs.ritz_vectors().cols()));
         m_basis_vectors = ritz_pairs.ritz_vectors().leftCols(size);
         m_op_basis_product = m_op_basis_product * ritz_pairs.small_ritz_vectors().leftCols(size);
     }
@@ -82,8 +86,25 @@ public:
     /// \param new_vect Matrix of new correction vectors
     void extend_basis(const Matrix& new_vect)
     {
+        // Remove from the new vectors what is already in the search space (twice is enough)
+        Matrix W = new_vect;
+        for (int pass = 0; pass < 2; pass++)
+        {
+            W -= m_basis_vectors * (m_basis_vectors.transpose() * W);
+        }
+        // What is left can be rank deficient: corrections that lie in the current search
+        // space, or that are linearly dependent on each other. A plain QR factorization would
+        // fill in arbitrary vectors for them, which are not orthogonal to the current basis.
+        // Keep an orthonormal basis of the directions that are really new
+        Eigen::ColPivHouseholderQR<Matrix> qr(W);
+        qr.setThreshold(std::sqrt(Eigen::NumTraits<Scalar>::epsilon()));
+        const Index rank = qr.rank();
+        if (rank < 1)
+            return;
+        Matrix Q = qr.householderQ() * Matrix::Identity(W.rows(), rank);
+
         Index left_cols_to_skip = size();
-        append_new_vectors_to_basis(new_vect);
+        append_new_vectors_to_basis(Q);
         twice_is_enough_orthogonalisation(m_basis_vectors, left_cols_to_skip);
     }
 
